@@ -12,4 +12,4 @@ require (
 	golang.org/x/sync v0.7.0 // indirect
 )
 
-replace github.com/tormoder/fit => /root/work/c04/repo
+replace github.com/tormoder/fit => /repo
